@@ -2167,7 +2167,24 @@ impl GlobalInferenceCtx<'_> {
                                     .iter_mut()
                                     .find(|v| v.matches_arm(&self.tys[self.loc], variant))
                                 else {
-                                    unreachable!()
+                                    // `has_sum_variant` is more lenient than `matches_arm`
+                                    // (any type that is nil underneath counts as `nil` there),
+                                    // such an arm doesn't name a variant
+                                    if let ArmVariant::FullyQualified(ty) = variant
+                                        && let Some(ty) = self.tys[self.loc].meta_ty(ty)
+                                    {
+                                        self.diagnostics.push(TyDiagnostic {
+                                            kind: TyDiagnosticKind::NotAVariantOfSumType {
+                                                ty,
+                                                sum_ty: scrutinee_ty,
+                                            },
+                                            file: self.loc.file(),
+                                            expr: Some(arm.body),
+                                            range: arm.variant_range,
+                                            help: None,
+                                        });
+                                    }
+                                    continue;
                                 };
 
                                 if arm_variant.included_in_switch {
